@@ -1,2 +1,28 @@
-From Coq Require Import ZArith List Bool.
-From Falcon.C13 Require Import Model Spec.
+(* C13 — property theorems only.  Each is closed by [exact] of a lemma from a Proofs*.v file
+   and followed by Print Assumptions. *)
+From Coq Require Import ZArith NArith List Bool Arith.
+From Falcon.lib Require Import PyStr.
+From Falcon.C14 Require Import Spec.
+From Falcon.C13 Require Import Model Spec ProofsNoCrash.
+Import ListNotations.
+Local Open Scope nat_scope.
+
+(* "a structurally invalid body produces the multipart parse error, never another exception,
+   a hang ...": for EVERY byte string as body (valid, corrupted, truncated, garbage), every
+   boundary of length 1..cs-4, every limit setting and every consumption script, iterating the
+   form terminates (within fuel |body|+1) and ends normally or with MultipartParseError. *)
+Theorem C13_invalid_structure_is_parse_error : forall cs c b script body,
+  4 <= cs -> 1 <= length b -> length b + 4 <= cs -> script_ok cs script = true ->
+  parse_error_or_done (snd (parse_form cs c b script body)).
+Proof. exact no_crash. Qed.
+Print Assumptions C13_invalid_structure_is_parse_error.
+
+(* "... or silently wrong parts" (the part that holds of arbitrary bodies): whatever a part's
+   stream hands to the application is a contiguous slice of the request body *)
+Theorem C13_part_data_is_a_slice_of_the_body : forall cs c b script body ps st,
+  parse_form cs c b script body = (ps, st) ->
+  Forall (fun p => match po_data p with
+                   | Some d => exists i, firstn (length d) (skipn i body) = d
+                   | None => True end) ps.
+Proof. exact parts_prefix_sound. Qed.
+Print Assumptions C13_part_data_is_a_slice_of_the_body.
